@@ -334,7 +334,7 @@ def r4(cx):
     cx.floor("Entry::new call sites in Transaction", n, 4)
 
 
-@rule("C08", "C08.R5", "commit applies surviving writes in issue order; closes only on success; rollback/drop discard everything")
+@rule("C08", "C08.R5", "commit applies surviving writes in issue order; closes once the writes were taken; rollback/drop discard everything")
 def r5(cx):
     f = cx.f
     b = f.coroutine_of("Transaction::commit")
@@ -473,3 +473,27 @@ def r3(cx):
 def r8(cx):
     from .c09 import rule_ws_seek_absolute
     rule_ws_seek_absolute(cx)
+
+
+@rule("C08", "C08.R9", "once commit() has taken the pending writes, the transaction is closed on every exit")
+def r9(cx):
+    """Transaction::commit moves the write-set out (`mem::take`) to build the batch.  From that point on the transaction
+    object no longer holds its pending writes: if any exit -- in particular the failing ones (conflict, I/O error, batch
+    too large) -- leaves it open, reads silently stop reflecting the transaction's own writes and a second commit() finds an
+    empty write-set and reports Ok(()) although nothing was ever written.  Decided on the coroutine of commit(): every path
+    from the take to a return passes `closed = true`."""
+    f = cx.f
+    b = f.coroutine_of("Transaction::commit")
+    tk = [c for c in b.calls if c.bb in b.live and c.primary.endswith("mem::take") and "write_set" in origin_of_operand(b, c.args[0]).field_names()]
+    cx.floor("write-set take in Transaction::commit", len(tk), 1)
+    cl = sorted({i for i, j, lhs, rv, line in b.assigns() if i in b.live and any(isinstance(p, list) and p[0] == "f" and p[2] == "closed" for p in lhs[1:]) and const_value(_rv0(rv)) == 1})
+    cx.floor("closed = true sites in Transaction::commit", len(cl), 1)
+    exs = [x for x, k in exits(b)] or b.rets
+    for c in tk:
+        r = b.reachable_after([c.bb], avoid=set(cl))
+        bad = sorted(x for x in exs if x in r and x not in cl)
+        # an exit block that writes Err and only afterwards (scope drops) reaches the return is still a bad exit unless a close lies in between
+        bad = [x for x in bad if any(t in b.reachable_from([x], avoid=set(cl)) for t in b.rets) or x in b.rets]
+        cx.check(not bad, "after the write-set was taken every exit of commit() closes the transaction", "commit-failure-leaves-open", b.where(bad[0]) if bad else c.where(),
+                 "Transaction::commit can return (with an error) after it moved the pending writes out of the transaction without closing it: the transaction stays usable with an "
+                 "empty write-set -- its reads lose read-your-writes and a second commit() returns Ok(()) for writes that were never committed")
